@@ -251,7 +251,7 @@ func main() {
 			cs = chainsim.WithExtraCases(cs, r.Seed, r.Pick(4, 100), "vrf")        // VRF beacon backend: proof transactions
 			// Read-fault twins (hook H6): the nonce discipline on a node whose store fails single reads.
 			n0 := len(cs)
-			cs = chainsim.WithExtraCases(cs, r.Seed, r.Pick(24, 400), "default")
+			cs = chainsim.WithExtraCases(cs, r.Seed, r.Pick(32, 400), "default")
 			for i := n0; i < len(cs); i++ {
 				cs[i].Mode = "readfault"
 				cs[i].Profile = []string{"default", "hostile", "registry"}[i%3]
